@@ -153,6 +153,19 @@ func applyUpdate(n *Notification, key string) (*Notification, error) {
 		return n, nil
 	}
 
+	// The stored notification itself was put, eg. after a value was inserted
+	// into it through the database interface. The caller holds its lock and it
+	// already carries the new values, so it must not be locked or saved again:
+	// all that is left to do is to act on a freshly selected action.
+	if n == existing {
+		if existing.State == Active && existing.SelectedActionID != "" {
+			log.Tracef("notifications: selected action for %s: %s", existing.EventID, existing.SelectedActionID)
+			existing.selectAndExecuteAction(existing.SelectedActionID)
+			existing.UpdateMeta()
+		}
+		return existing, nil
+	}
+
 	// Save when we're finished, if needed.
 	save := false
 	defer func() {
